@@ -249,6 +249,95 @@ func (e *Engine) pipelineObligations(prop string) []*Oblig {
 	switch prop {
 	case "C18":
 		out = append(out, e.lockHeld(prop)...)
+	case "C09":
+		out = append(out, e.spawnDisjoint(prop, []string{
+			"(*github.com/goblimey/go-ntrip/file_handler.Handler).Handle",
+			"(*github.com/goblimey/go-ntrip/apps/appcore.AppCore).HandleMessagesUntilEOF",
+		})...)
 	}
 	return out
+}
+
+// ---------------------------------------------------------------- spawn-disjoint
+
+// spawnDisjoint: after a go statement the spawner does not touch the non-channel
+// objects (pointers, maps, slices) it handed to the goroutine.
+func (e *Engine) spawnDisjoint(prop string, fns []string) []*Oblig {
+	var out []*Oblig
+	for _, key := range fns {
+		fn := e.fnByKey[key]
+		if fn == nil {
+			continue
+		}
+		var problems []string
+		nGo := 0
+		for _, b := range fn.Blocks {
+			for _, ins := range b.Instrs {
+				g, ok := ins.(*ssa.Go)
+				if !ok {
+					continue
+				}
+				nGo++
+				for _, a := range g.Call.Args {
+					switch a.Type().Underlying().(type) {
+					case *types.Pointer, *types.Map, *types.Slice:
+					default:
+						continue
+					}
+					if _, isConst := a.(*ssa.Const); isConst {
+						continue
+					}
+					for _, ref := range *a.Referrers() {
+						if ref == ins {
+							continue
+						}
+						if _, dbg := ref.(*ssa.DebugRef); dbg {
+							continue
+						}
+						if ref.Block() == nil {
+							continue
+						}
+						if reachableAfter(g, ref) {
+							problems = append(problems, fmt.Sprintf("%s: %s uses %s after handing it to the goroutine started at %s", e.pos(ref), fn.Name(), a.Name(), e.pos(ins)))
+						}
+					}
+				}
+			}
+		}
+		out = append(out, structOblig("spawn-disjoint/"+shortKey(key), "spawn-disjoint",
+			fmt.Sprintf("%s does not touch the objects it hands to the %d goroutine(s) it starts (channels excepted)", shortKey(key), nGo), []string{prop}, problems))
+	}
+	return out
+}
+
+// reachableAfter: instruction b can execute after instruction a (same function).
+func reachableAfter(a, b ssa.Instruction) bool {
+	if a.Block() == b.Block() {
+		after := false
+		for _, ins := range a.Block().Instrs {
+			if ins == a {
+				after = true
+				continue
+			}
+			if ins == b && after {
+				return true
+			}
+		}
+	}
+	// b's block reachable from a's block via successors (including loops back to a's block)
+	seen := map[int]bool{}
+	stack := append([]*ssa.BasicBlock(nil), a.Block().Succs...)
+	for len(stack) > 0 {
+		x := stack[len(stack)-1]
+		stack = stack[:len(stack)-1]
+		if seen[x.Index] {
+			continue
+		}
+		seen[x.Index] = true
+		if x == b.Block() {
+			return true
+		}
+		stack = append(stack, x.Succs...)
+	}
+	return false
 }
